@@ -2,7 +2,9 @@ package gbn
 
 import (
 	"context"
+	"fmt"
 	"io"
+	"math"
 	"time"
 )
 
@@ -139,6 +141,13 @@ handshakeLoop:
 
 		g.log.Debugf("Received client SYN. Sending back.")
 		n = msg.(*PacketSYN).N
+
+		// The sequence space is n+1 and must fit into a uint8, so a
+		// proposed window of 255 cannot be represented.
+		if n == math.MaxUint8 {
+			return fmt.Errorf("client proposed n=%d, n must be "+
+				"smaller than %d", n, math.MaxUint8)
+		}
 
 		// Send SYN back
 		syn := &PacketSYN{N: n}
